@@ -432,6 +432,7 @@ func (e *expression) Value(ctx *hcl.EvalContext) (cty.Value, hcl.Diagnostics) {
 		attrs := map[string]cty.Value{}
 		attrRanges := map[string]hcl.Range{}
 		known := true
+		var marks []cty.ValueMarks
 		for _, jsonAttr := range v.Attrs {
 			// In this one context we allow keys to contain interpolation
 			// expressions too, assuming we're evaluating in interpolation
@@ -483,12 +484,22 @@ func (e *expression) Value(ctx *hcl.EvalContext) (cty.Value, hcl.Diagnostics) {
 				known = false
 				continue
 			}
+			// A key derived from a marked value can't stay marked as an
+			// attribute name, so (as in the native syntax) its marks are
+			// transferred to the object as a whole.
+			name, nameMarks := name.Unmark()
+			marks = append(marks, nameMarks)
 			nameStr := name.AsString()
 			if _, defined := attrs[nameStr]; defined {
+				detail := fmt.Sprintf("An attribute named %q was already defined at %s.", nameStr, attrRanges[nameStr])
+				if len(nameMarks) > 0 {
+					// The name might be sensitive, so it isn't repeated here.
+					detail = fmt.Sprintf("An attribute with the same name was already defined at %s.", attrRanges[nameStr])
+				}
 				diags = append(diags, &hcl.Diagnostic{
 					Severity:    hcl.DiagError,
 					Summary:     "Duplicate object attribute",
-					Detail:      fmt.Sprintf("An attribute named %q was already defined at %s.", nameStr, attrRanges[nameStr]),
+					Detail:      detail,
 					Subject:     &jsonAttr.NameRange,
 					Expression:  e,
 					EvalContext: ctx,
@@ -501,9 +512,9 @@ func (e *expression) Value(ctx *hcl.EvalContext) (cty.Value, hcl.Diagnostics) {
 		if !known {
 			// We encountered an unknown key somewhere along the way, so
 			// we can't know what our type will eventually be.
-			return cty.DynamicVal, diags
+			return cty.DynamicVal.WithMarks(marks...), diags
 		}
-		return cty.ObjectVal(attrs), diags
+		return cty.ObjectVal(attrs).WithMarks(marks...), diags
 	case *nullVal:
 		return cty.NullVal(cty.DynamicPseudoType), nil
 	default:
